@@ -1047,7 +1047,7 @@ class KmipEngine(object):
                 )
 
             # Generically handle attribute deletion.
-            if attribute_value:
+            if attribute_value is not None:
                 if attribute_list.count(attribute_value):
                     attribute_list.remove(attribute_value)
                 else:
